@@ -221,6 +221,22 @@ def pinned_tables(ctx, L):
                     if nbad <= 40:
                         ctx.fail(JC.FN[u.sys], JC.fail_args(u.sys, u.key, arg), want, im,
                                  note='published table (pinned copy): %s form, mark %s' % (name, JC.s2(k)), replay_py=JC.replay_py(u.sys, u.key, arg))
+    # the published competition names (QuadKids): every name of the pinned map must lead to the pinned table it names
+    nmap = 0
+    for name, code in sorted(P['qkmap'].items()):
+        for ev, row in sorted(P['qk'].get(code, {}).items()):
+            u = next((x for x in units if x.sys == 'qk' and x.key == (code, ev)), None)
+            if u is None: continue
+            for k in sorted(set(u.marks))[::6] + [u.marks[0], u.marks[-1]]:
+                if k < 0: continue
+                want = JC.oracle(PL, 'qk', (name, ev), k, False)
+                im = JC.canon(JC.impl_call(L, 'qk', (name, ev), JC.s2(k))); nmap += 1
+                if want is not None and im != want:
+                    nbad += 1
+                    if nbad <= 40:
+                        ctx.fail('athlib.qkids_score', [name, ev, JC.s2(k)], want + ' (the %s table)' % code, im,
+                                 note='published competition name (pinned copy of the name map): mark %s' % JC.s2(k), replay_py=JC.replay_py('qk', (name, ev), JC.s2(k)))
+    ctx.count(nmap, 'pinned_name_calls')
     ctx.count(ncalls, 'pinned_table_calls')
     ctx.stats['table_entries_differing_from_pinned_copy'] = ndiff
     ctx.oblig('oracle:scores equal the exact evaluation of the pinned published tables wherever a live table entry differs from them', 'oracle', nbad == 0,
